@@ -1,7 +1,9 @@
 /- Property C16: the property theorems (and nothing else). -/
 import Frugal.Proofs.EncodeRefine
 import Frugal.Proofs.BufferLemmas
-import Frugal.Props.Instances
+import Frugal.Props.Inst.Params
+import Frugal.Props.Inst.F_facts_bufferContract
+import Frugal.Props.Inst.F_skeleton_encoder
 namespace Frugal.C16
 open Frugal
 /-- encoding is a function of the value: the model has no other input (map order aside), so
@@ -22,4 +24,10 @@ theorem never_beyond_len (back : Bytes) (len : Nat) (chunks : List Bytes) :
   encodeObject_tail_untouched back len chunks
 
 theorem code_follows_buffer_model : Generated.facts.bufferContract = true := Instances.facts_bufferContract
+/-- … and those that speak of `appendM` / `sizeM` about the hand-written model of `appendStruct` /
+    `appendAny` / the size walk / the entry points (Encode.lean), written from exactly this control
+    structure of the code (regenerated fingerprint; the fast-path tables are regenerated themselves) -/
+theorem encoder_model_written_from_this_code : Generated.facts.encoderSkeleton = Skeleton.encoder :=
+  Instances.skeleton_encoder
+
 end Frugal.C16
